@@ -8,10 +8,12 @@
 (*                       identities are bound to metadata row ids when the document is built),       *)
 (*          texts0/1/2 : column identity -> formula text in _grist_Tables_column,                    *)
 (*          vals0/1/2  : column identity -> the cells of the column as ASCII tokens,                 *)
+(*          vals1r     : the same after a from-scratch recalculation of the document after the step, *)
 (*          dig0, dig1 : digests of the whole document, cons1 : engine schema = metadata,            *)
 (*          undo_exc   : "" or the class of the exception ApplyUndoActions raised]                   *)
 (* Verdict per failing case: [i, c = failed clauses, ft = formula columns whose text is not the      *)
-(* rendering of their tree under names1, fv = columns whose cells changed].                          *)
+(* rendering of their tree under names1, fv = columns whose cells changed, fr = columns whose cells  *)
+(* differ after the from-scratch recalculation].                                                    *)
 (* "SPEC.*" clauses are about the machinery itself: the input is outside the family (SPEC.wf), the   *)
 (* document was not built as the input says (SPEC.setup), the worker's renderer disagrees with       *)
 (* Rename!Toks or the engine did not store the text (SPEC.render), a formula of the family does not  *)
@@ -40,11 +42,14 @@ Judge(c) ==
               ELSE IF ~renderOk THEN {"SPEC.render"}
               ELSE IF ~noErr THEN {"SPEC.error0"} ELSE {}
       judged == o.fail = "" /\ o.exc = ""
-  IN IF ~(dc[c.inp.doc].ok /\ StepOk(in)) THEN [c |-> {"SPEC.wf"}, ft |-> {}, fv |-> {}]
-     ELSE IF o.fail # "" THEN [c |-> Clauses(in, o), ft |-> {}, fv |-> {}]
-     ELSE [c  |-> spec \cup Clauses(in, o),
-           ft |-> IF judged THEN BadTexts(in, o.texts1, o.names1, o.texts0) ELSE {},
-           fv |-> IF judged THEN BadVals(o.vals0, o.vals1) ELSE {}]
+      ft == IF judged THEN BadTexts(in, o.texts1, o.names1, o.texts0) ELSE {}
+      fv == IF judged THEN BadVals(o.vals0, o.vals1) ELSE {}
+      fr == IF judged THEN BadVals(o.vals0, o.vals1r) ELSE {}
+  IN IF ~(dc[c.inp.doc].ok /\ StepOk(in)) THEN [c |-> {"SPEC.wf"}, ft |-> {}, fv |-> {}, fr |-> {}]
+     ELSE IF o.fail # ""
+     THEN [c |-> IF Len(o.fail) >= 5 /\ SubSeq(o.fail, 1, 5) = "setup" THEN {"SPEC.setup"}
+                 ELSE ClausesFrom(in, o, {}, {}), ft |-> {}, fv |-> {}, fr |-> {}]
+     ELSE [c |-> spec \cup ClausesFrom(in, o, ft, fv \cup fr), ft |-> ft, fv |-> fv, fr |-> fr]
 
 Init == /\ i = 0 /\ bad = <<>>
         /\ dc = [k \in 1..Len(Data.docs) |-> DocFacts(Data.docs[k])]
@@ -53,7 +58,7 @@ Next ==
   /\ i < NCases
   /\ i' = i + 1
   /\ bad' = LET j == Judge(Data.cases[i + 1])
-            IN IF j.c = {} THEN bad ELSE Append(bad, [i |-> i + 1, c |-> j.c, ft |-> j.ft, fv |-> j.fv])
+            IN IF j.c = {} THEN bad ELSE Append(bad, [i |-> i + 1, c |-> j.c, ft |-> j.ft, fv |-> j.fv, fr |-> j.fr])
   /\ (i' < NCases \/ JsonSerialize(IOEnv.OUT_FILE, bad'))
   /\ UNCHANGED dc
 Spec == Init /\ [][Next]_<<i, bad, dc>>
